@@ -816,6 +816,8 @@ class Folder:
             if isinstance(st, ast.Expr):
                 if isinstance(st.value, ast.Constant):
                     continue
+                if isinstance(st.value, ast.Call) and ast.unparse(st.value.func).split(".")[0] in ("_LOGGER", "logging", "_LOG", "logger", "warnings"):
+                    continue   # a log line has no influence on the value being folded
                 v = self.fold(st.value, mod, scope)
                 if is_unknown(v):
                     raise _CannotExec(f"line {st.lineno}: {v.why}")
